@@ -33,13 +33,12 @@ class Semaphore {
 
     //! 请求资源，注意：只能是协程调用
     bool acquire () {
-        if (count_ == 0) {      //! 如果没有资源，则等待
+        //! 如果没有资源，则等待。每次等待前都要重新排队，因为被唤醒后资源可能已被别人取走
+        while (count_ == 0) {
             token_.push(sch_.getToken());
-            do {
-                sch_.wait();
-                if (sch_.isCanceled())
-                    return false;
-            } while (count_ == 0);
+            sch_.wait();
+            if (sch_.isCanceled())
+                return false;
         }
 
         --count_;
@@ -48,12 +47,14 @@ class Semaphore {
 
     //! 释放资源
     void release() {
-        if (count_ == 0 && !token_.empty()) {
+        ++count_;
+        //! 每释放一个资源就唤醒一个等待者（跳过已失效的token），否则连续释放会丢失唤醒
+        while (!token_.empty()) {
             auto t = token_.front();
             token_.pop();
-            sch_.resume(t);
+            if (sch_.resume(t))
+                break;
         }
-        ++count_;
     }
 
     inline bool count() const { return count_; }
